@@ -109,7 +109,7 @@ def minimise(pool, plan, result, sig, budget_s=150, max_evals=120):
     return best, best_res, evals
 
 
-def write_replay(prop, seed, plan, v, digest):
+def write_replay(prop, seed, plan, v, digest, sequence=None):
     os.makedirs(os.path.join(HERE, "replays"), exist_ok=True)
     body = {
         "property": prop,
@@ -120,7 +120,11 @@ def write_replay(prop, seed, plan, v, digest):
         "digest": digest,
         "plan": plan,
     }
-    h = hashlib.sha256(json.dumps(plan, sort_keys=True).encode()).hexdigest()[:10]
+    if sequence is not None:
+        # process-global state in the code under test: the violation needs the earlier plans too
+        del body["plan"]
+        body["sequence"] = sequence
+    h = hashlib.sha256(json.dumps(plan if sequence is None else sequence, sort_keys=True).encode()).hexdigest()[:10]
     path = os.path.join(HERE, "replays", "%s-%s-%s.json" % (prop, seed, h))
     with open(path, "w") as f:
         json.dump(body, f, indent=1, sort_keys=True)
@@ -132,7 +136,7 @@ def do_replay(path):
         body = json.load(f)
     pool = fanout.Pool(1)
     try:
-        r = pool.call("checks.dispatch:execute", body["plan"])
+        r = pool.call("checks.dispatch:execute_seq", {"plans": body["sequence"] if "sequence" in body else [body["plan"]]})
     finally:
         pool.close()
     sig = tuple(body["signature"])
@@ -173,6 +177,8 @@ def main():
         if f.get("probe"):
             extras.append(f["probe"])
     plans = extras + [dispatch.gen_plan(prop, seed, i, tier) for i in range(n)]
+    for k, pl in enumerate(plans):
+        pl["_idx"] = k
     deadline = t0 + (args.deadline if args.deadline else (600 if tier == "quick" else 3 * 3600))
     pool = fanout.Pool(args.workers)
     evaluations = 0
@@ -186,6 +192,7 @@ def main():
     per_plan = {}
     try:
         for i, r in pool.map_unordered("checks.dispatch:execute", plans, deadline=deadline):
+            r["_plan_index"] = i
             evaluations += 1
             runs += r.get("runs", 1)
             if r.get("nontrivial"):
@@ -219,21 +226,56 @@ def main():
         replays = []
         for sig, (plan, r, v) in list(new_viol.items())[:3]:
             print("violation found: %s / %s / %s : %s" % (sig[0], sig[1], sig[2], v["detail"][:300]), flush=True)
-            best, best_res, evals = minimise(pool, plan, r, sig)
-            vv = [x for x in best_res["violations"] if common.signature(x) == sig][0]
-            digest = best_res["summary"].get("digest") if isinstance(best_res.get("summary"), dict) else None
-            path = write_replay(prop, seed, best, vv, digest)
-            # the replay must reproduce in a fresh process before it is reported
-            rr = fanout.Pool(1)
+            fresh = fanout.Pool(1)  # minimise away from whatever state the fan-out workers accumulated
             try:
-                again = rr.call("checks.dispatch:execute", best)
+                best, best_res, evals = minimise(fresh, plan, r, sig)
             finally:
-                rr.close()
-            ok = any(common.signature(x) == sig for x in again["violations"])
-            print("  minimised in %d evaluations to %d bytes; fresh-process replay %s" % (evals, common.plan_size(best), "reproduces" if ok else "DOES NOT REPRODUCE"))
+                fresh.close()
+
+            def reproduces(plans):
+                rr = fanout.Pool(1)  # a fresh interpreter
+                try:
+                    again = rr.call("checks.dispatch:execute_seq", {"plans": plans})
+                finally:
+                    rr.close()
+                hit = [x for x in again["violations"] if common.signature(x) == sig]
+                return (again, hit[0]) if hit else None
+
+            chosen = None
+            orig = plans[r["_plan_index"]]
+            prior = [plans[k] for k in r.get("prior", []) if k is not None]
+            for label, cand in (("minimised plan", [best]), ("original plan", [orig]), ("plan after the %d plans its worker ran before it" % len(prior), prior + [orig])):
+                got = reproduces(cand)
+                if got:
+                    chosen = (label, cand, got)
+                    break
+            if chosen is None:
+                raise HarnessError("violation %r does not replay in a fresh process, not even after the plans its worker ran before: nondeterminism in the harness" % (sig,))
+            label, cand, (again, vv) = chosen
+            if len(cand) > 2:  # drop earlier plans that are not needed (each trial in a fresh interpreter)
+                pre = cand[:-1]
+                trials = 0
+                chunk = max(len(pre) // 2, 1)
+                while chunk >= 1 and trials < 14 and pre:
+                    k = 0
+                    shrunk = False
+                    while k < len(pre) and trials < 14:
+                        trial = pre[:k] + pre[k + chunk:]
+                        trials += 1
+                        got = reproduces(trial + [cand[-1]])
+                        if got:
+                            pre, (again, vv) = trial, got
+                            shrunk = True
+                        else:
+                            k += chunk
+                    if chunk == 1 and not shrunk:
+                        break
+                    chunk = max(chunk // 2, 1) if chunk > 1 else (1 if shrunk else 0)
+                cand = pre + [cand[-1]]
+            digest = again["summary"].get("digest") if isinstance(again.get("summary"), dict) else None
+            path = write_replay(prop, seed, cand[0] if len(cand) == 1 else None, vv, digest, sequence=cand if len(cand) > 1 else None)
+            print("  minimised in %d evaluations; fresh-process replay reproduces with the %s (%d plan(s), %d bytes)" % (evals, label, len(cand), sum(common.plan_size(c) for c in cand)))
             print("  %s" % vv["detail"][:600])
-            if not ok:
-                raise HarnessError("violation does not replay: nondeterminism in the harness")
             print("VIOLATION property=%s replay=%s" % (prop, path), flush=True)
             replays.append(path)
             rc = 1
